@@ -345,6 +345,14 @@ func genHybridQuery(rng *rand.Rand, h *hybridModel, vg *vecGen, tg *textGen) hyb
 		}
 		if useV {
 			q.Vector = vg.query()
+			if rng.IntN(8) == 0 {
+				// a query far away from everything: all distances are huge and nearly equal, so the fused scores of
+				// documents sharing a vector differ by far less than a float32 ulp of the distance (ordering must still be
+				// the ordering of the float64 scores that are reported)
+				for i := range q.Vector {
+					q.Vector[i] *= 1e6
+				}
+			}
 		}
 		if useT {
 			n := 1 + rng.IntN(2)
@@ -387,7 +395,7 @@ func genHybridQuery(rng *rand.Rand, h *hybridModel, vg *vecGen, tg *textGen) hyb
 	if rng.IntN(2) == 0 {
 		q.WV, q.WT = rng.Float64()*2, rng.Float64()*2
 	}
-	q.RRFK = []float64{1, 60}[rng.IntN(2)]
+	q.RRFK = []float64{1, 60, 60, 10000, 0.5, 2.5}[rng.IntN(6)]
 	switch rng.IntN(6) {
 	case 0: // by kind: the library's default configuration (weights 1/1, K = 60)
 		q.Via, q.WV, q.WT, q.RRFK = 1, 1, 1, 60
